@@ -32,6 +32,7 @@ func runC03(p *eng.Prog, r *eng.Report, tier string) {
 	c03Chain(c)
 	c03AdvertisedIsAccepted(c, "C03.11")
 	c03SelectionPerRequest(c, "C03.12")
+	c03NamesCompared(c, "C03.13")
 	// the SASL feature value is shared by every session that uses it: what one
 	// session's Parse saw (the mechanisms its server offered) must not be kept
 	// in, or alias, state that another session's Parse overwrites
@@ -436,4 +437,33 @@ func c03SelectionPerRequest(c *cx, id string) {
 		return true
 	})
 	c.r.Floor(id, "mechanism searches in negotiateServer", n, 1)
+}
+
+// c03NamesCompared (C03.13): "a mechanism that both sides did not offer is never
+// used": mechanism names are compared as they are. No function of sasl.go
+// (the feature's closures, negotiateClient, negotiateServer) calls a
+// string-rewriting or case-folding function: a name that differs from an
+// offered one by case ("plain") or by white space ("PLAIN\u00a0") is another
+// name.
+func c03NamesCompared(c *cx, id string) {
+	n := 0
+	var scan func(f *eng.Fn)
+	scan = func(f *eng.Fn) {
+		n++
+		for _, cl := range f.AllCalls() {
+			cid := f.CalleeID(cl)
+			if lossyFuncs[cid] || cid == "strings.EqualFold" || cid == "bytes.EqualFold" {
+				c.r.Check(id, f, "call of "+cid, "C: mechanism names are compared byte for byte: no trimming, case folding or replacing in the SASL functions", cl.Pos(), false, "a name that was not offered is taken for one that was")
+			}
+		}
+		for _, l := range f.Lits {
+			scan(l)
+		}
+	}
+	for _, name := range []string{"newSASL", "negotiateClient", "negotiateServer"} {
+		if f := c.fn(id, "", name); f != nil {
+			scan(f)
+		}
+	}
+	c.r.Floor(id, "SASL functions and closures scanned", n, 5)
 }
